@@ -207,6 +207,10 @@ theorem nested_items_shape (k : Kind) (Pi : Nat) (A B : List Nat) :
     Shape (nestItemsAt k Pi A B) A.length k Pi (A ++ B) :=
   shape_at k Pi A B
 
+/-- the CWL translator never passes a depth: the inner cartesian product it builds has the default depth, which is the
+    depth-1 case this theorem covers (for depth ≥ 2 see `nested_cart_depth2_counterexample`) -/
+example : Gen.cartDefaultDepth = 1 := rfl
+
 /-- non-vacuity: two inner ports with two tokens each, the broadcast token `0` on plain port 2 -/
 example : WFNest 2 2 [2] [(0, ⟨[0, 0], 1⟩), (0, ⟨[0, 1], 2⟩), (1, ⟨[0, 0], 3⟩), (1, ⟨[0, 1], 4⟩), (2, ⟨[0], 5⟩)] := by
   constructor
